@@ -75,7 +75,10 @@ class C08(Driver):
                     ops.append({"op": r.choice(["lock", "lock", "rlock", "wlock"])})
                 elif r.random() < bias:
                     ops.append({"op": "give", "ch": c, "mid": mid, "shape": r.randrange(len(SHAPES))})
-                    if r.random() < w_lend:
+                    if r.random() < 0.04:
+                        # a value that cannot travel between threads: the give raises, and the channel stays usable
+                        ops[-1]["bad"] = 1
+                    elif r.random() < w_lend:
                         # the payload is a fresh thread channel: the receiver uses it once, drops it and collects,
                         # the lender goes on using it (shared abstract, reference counted across threads)
                         ops[-1]["lend"] = 1
@@ -158,6 +161,10 @@ class C08(Driver):
                     A("  (ev/sleep %s)" % (op["ms"] / 1000.0))
                 elif o == "give":
                     mk = "(mk %d %d)" % (op["shape"], op["mid"]) if not op.get("lend") else "(let [c (ev/thread-chan 1)] (array/push lent c) c)"
+                    if op.get("bad"):
+                        A("  (sim/ev :inv %d %d) (let [[ok v] (protect (ev/give (chans %d) [%d (parser/new)]))] (sim/ev :ret %d %d :badgive ok (if ok :accepted :refused)))"
+                          % (t, k, op["ch"], op["mid"], t, k))
+                        continue
                     A("  (let [m %s] (sim/ev :inv %d %d) (sim/ev :send %d %d %d (show m))" % (mk, t, k, t, op["ch"], op["mid"]))
                     A("    (let [[ok v] (protect (ev/give (chans %d) [%d m]))] (sim/ev :ret %d %d :give ok (if ok (if v :ok :closed) v))))"
                       % (op["ch"], op["mid"], t, k))
@@ -364,6 +371,9 @@ class C08(Driver):
             elif k == "!deadlock" and p.count("=mutex") >= 2:
                 # every other verdict of this run is a consequence of the threads being stuck
                 return [Violation("C08/deadlock/threads-blocked-on-each-others-channel-locks", p)]
+        for key, (seq, toks) in ret.items():
+            if toks[0] == ":badgive" and toks[1] == "true":
+                V("C08/equality/unmarshallable-value-accepted-by-a-thread-channel", " ".join(toks))
         for key, (seq, toks) in ret.items():
             if toks[0] == ":select" and toks[1] == "true" and toks[2] not in (":take", ":close", ":give"):
                 V("C08/select/result-is-not-a-clause-tuple", " ".join(toks))
